@@ -130,7 +130,7 @@ def gen(ctx):
     for cont in strconts:
         sup = list(M.STR_SUPPORT[cont])
         for L in STR_LENS[cont]:
-            for rep in range(2 if not thorough else 6):
+            for rep in range(4 if not thorough else 16):
                 tys = rng.sample(sup, min(3, len(sup)))
                 big = tys[rng.randrange(len(tys))]
                 sets = []
@@ -142,7 +142,7 @@ def gen(ctx):
                         n = min(n, 60)
                     sets.append(S(ty, text(rng, n, ascii_only=(cont == "aiff" and ty in (2, 3)) or ty == 3)))
                 add("str-%s-%d-%d" % (cont, L, rep), "strings", cont, sets)
-        for rep in range(3 if not thorough else 12):
+        for rep in range(6 if not thorough else 30):
             tys = list(M.STR_TYPES)
             rng.shuffle(tys)
             sets = [S(ty, text(rng, rng.choice([1, 2, 3, 10, 40]), ascii_only=(cont == "aiff" and ty in (2, 3)))) for ty in tys]
@@ -157,7 +157,7 @@ def gen(ctx):
     # 2. bext
     for cont in ("wav", "wavex", "rf64", "rifx"):
         for n in [0, 1, 2, 3, 255, 256, 1000, 4000, 9000] + ([9500, 9580] if thorough else []):
-            for e in range(2):
+            for e in range(3 if not thorough else 8):
                 ends = ENDINGS if e else [rng.choice(ENDINGS)]
                 hist = lines_text(rng, n, ends)
                 if n and rng.random() < 0.5:
@@ -187,7 +187,7 @@ def gen(ctx):
                          ("wavex", 6, (2, 3, 4, 7, 5, 6)), ("caf", 6, (2, 3, 4, 7, 5, 6)), ("wav", 2, (2, 3)), ("caf", 2, (3, 4)), ("wavex", 2, (0, 1)), ("wavex", 2, (2, 99))):
         add("chmap-%s-%s" % (cont, "_".join(map(str, mp))), "chmap", cont, [chmap_cmd(mp), S(1, b"T")], ch=ch)
     # 7. several items in one header, random order
-    for rep in range(24 if not thorough else 120):
+    for rep in range(120 if not thorough else 1000):
         cont = rng.choice(["wav", "wav", "wavex", "rf64", "rifx", "aiff", "caf"])
         sets = [S(ty, text(rng, rng.choice([1, 2, 9, 100, 255] if ty != 3 else [1, 2, 9, 60]), ascii_only=(cont == "aiff" and ty in (2, 3)))) for ty in rng.sample(list(M.STR_TYPES), rng.randrange(1, 6))]
         if cont in M.BEXT_SUPPORT and rng.random() < 0.7:
